@@ -89,7 +89,7 @@ static void model_case(Case& c) {
     config.mortality_rate = mrate64 / 64.0; config.mortality_time_lag = mlag;
     config.use_treatments = pool_entry && rng.coin(45);
     config.use_movements = rng.coin(35);
-    config.use_spreadrates = rng.coin(35); config.spreadrate_frequency = mfreq[rng.in(0, 3)]; config.spreadrate_frequency_n = (unsigned)rng.in(1, 4);
+    config.use_spreadrates = pool_entry ? rng.coin(35) : rng.coin(8); config.spreadrate_frequency = mfreq[rng.in(0, 3)]; config.spreadrate_frequency_n = (unsigned)rng.in(1, 4);
     config.use_quarantine = rng.coin(35); config.quarantine_frequency = mfreq[rng.in(0, 3)]; config.quarantine_frequency_n = (unsigned)rng.in(1, 4);
     config.quarantine_directions = "";
     bool use_weather = rng.coin(50);
